@@ -382,12 +382,19 @@ def equal_normal_definite_integral(t1: NormalDefiniteIntegral, t2: NormalDefinit
     e2 = from_poly(t2.body), from_poly(t2.lower), from_poly(t2.upper)
     return e1 == e2
 
+def check_same_interval(t1: NormalDefiniteIntegral, t2: NormalDefiniteIntegral):
+    """Integrands may only be combined for integrals over the same interval."""
+    if from_poly(t1.lower) != from_poly(t2.lower) or from_poly(t1.upper) != from_poly(t2.upper):
+        raise NotImplementedError("integrals over different intervals")
+
 def add_normal_definite_integral(t1: NormalDefiniteIntegral, t2: NormalDefiniteIntegral):
+    check_same_interval(t1, t2)
     tmp = from_poly(t2.body)
     tmp = to_poly(tmp.subst(t2.var, expr.Var(t1.var)), t1.body.conds)
     return NormalDefiniteIntegral(t1.var, t1.lower, t1.upper, t1.body + tmp)
 
 def minus_normal_definite_integral(t1: NormalDefiniteIntegral, t2: NormalDefiniteIntegral):
+    check_same_interval(t1, t2)
     tmp = from_poly(t2.body)
     tmp = to_poly(tmp.subst(t2.var, expr.Var(t1.var)))
     return NormalDefiniteIntegral(t1.var, t1.lower, t1.upper, t1.body - tmp)
@@ -405,8 +412,12 @@ def normalize_definite_integral(e: Expr, conds: Conditions):
     return rec(e)
 
 def eq_definite_integral(t1: Expr, t2: Expr, conds: Conditions) -> bool:
-    n1 = normalize_definite_integral(t1, conds)
-    n2 = normalize_definite_integral(t2, conds)
+    try:
+        n1 = normalize_definite_integral(t1, conds)
+        n2 = normalize_definite_integral(t2, conds)
+    except NotImplementedError:
+        # Sum of integrals over different intervals: no common normal form
+        return False
     return equal_normal_definite_integral(n1, n2)
 
 def simp_definite_integral(e: Integral, conds: Conditions) -> Expr:
